@@ -176,8 +176,18 @@ class _SchemaValidator:
         resolver = _RefResolver(base_uri=schema_id, referrer=schema,
                                 store=self._store)
 
-        # create a JSON schema validator using this reference resolver
-        validator = jsonschema.Draft7Validator(schema, resolver=resolver)
+        # Create a JSON schema validator using this reference resolver.
+        #
+        # For `jsonschema`, a floating point number with an integral
+        # value (`8.0`) is an integer: barectf expects Python integers
+        # (field type sizes, alignments, lengths, and the rest).
+        def is_integer(checker, instance):
+            return isinstance(instance, int) and not isinstance(instance, bool)
+
+        type_checker = jsonschema.Draft7Validator.TYPE_CHECKER.redefine('integer', is_integer)
+        validator_cls = jsonschema.validators.extend(jsonschema.Draft7Validator,
+                                                     type_checker=type_checker)
+        validator = validator_cls(schema, resolver=resolver)
 
         # Validate the instance, converting its
         # `collections.OrderedDict` objects to `dict` objects so as to
